@@ -63,6 +63,11 @@ def gen_project(rng) -> Tuple[List[Unit], Dict[str, Any]]:
             definer += ["try:", "    from _speedups import X", "except ImportError:", "    pass"]
         else:
             definer = ["try:", "    from _speedups import X", "except ImportError:", "    pass"] + definer
+    # an import cycle: BELOW its definitions the defining module imports from the sibling that re-exports the object
+    # (analysed first, the definer is still in progress when the re-exporter takes the object)
+    cyclic = kind == "sibling" and rng.random() < 0.3
+    if cyclic:
+        definer += [rng.choice(["from pkg.api import API_CONST", "from .api import API_CONST as _c", "from . import api as _api", "import pkg.api\nfrom pkg.api import *"])]
     if b_all:
         definer += ["__all__ = ['X']"]
     if imp == "rel":
@@ -74,6 +79,8 @@ def gen_project(rng) -> Tuple[List[Unit], Dict[str, Any]]:
     else:
         line = "from pkg._b import *"
     reexp_src = [line, "__all__ = [%r]" % exported]
+    if cyclic:
+        reexp_src.append("API_CONST = 1")
     twice = rng.random() < 0.25
     if twice:
         # the same exported name imported a second time (repeated import, or star followed by a plain import)
@@ -116,7 +123,7 @@ def gen_project(rng) -> Tuple[List[Unit], Dict[str, Any]]:
         extra_root = rng.choice(["pk", "p", "pkg_ext"])
         units.insert(0, Unit(extra_root, False, "'''another root'''\nclass Unrelated:\n    pass\n", None))
     meta = {"kind": kind, "import": imp, "objkind": objkind, "exported": exported, "reexporter": reexp_q, "extra_root": extra_root,
-            "definer_all": b_all, "consumers": consumers, "imported_twice": twice, "definer_also_imports": speedups}
+            "definer_all": b_all, "definer_imports_reexporter": cyclic, "consumers": consumers, "imported_twice": twice, "definer_also_imports": speedups}
     return units + sibs, meta
 
 
